@@ -1420,6 +1420,22 @@ void e_apply()
                          : !md::ok(e2) ? md::fail(md::fval(e2))
                                        : md::succ(mf(md::sval(e1), md::sval(e2)));
               judge(cx, fl2<R1, R2>(), enc(r), want, md::ok(e1) && md::ok(e2));
+              // a NON-CONST lvalue as the second operand next to an rvalue / const lvalue first one: each operand is
+              // taken with its own value category, so the lvalue still holds its value afterwards
+              if constexpr (!R2)
+              {
+                ED t1 = dec<ED>(e1);
+                eit<E, B> t2 = dec<eit<E, B>>(e2);
+                begin_eval();
+                EA r2 = fcppt::either::apply(f, pass<R1>(t1), t2);
+                int const want2 = !md::ok(e1)   ? md::fail(md::fval(e1)) // (evaluating the model logs the expected call)
+                                  : !md::ok(e2) ? md::fail(md::fval(e2))
+                                                : md::succ(mf(md::sval(e1), md::sval(e2)));
+                judge(cx, R1 ? "&&,&" : "const&,&", enc(r2), want2, md::ok(e1) && md::ok(e2));
+                if (enc(t2) != e2)
+                  vf::violation(cx.fn + "/" + (R1 ? "&&,&" : "const&,&") + "/lvalue-operand-modified", "mismatch",
+                                "the non-const lvalue operand no longer holds its value" + ops_text());
+              }
             });
       });
   }();
@@ -1446,6 +1462,22 @@ void e_apply()
                                          : md::succ(mf(md::sval(e1), md::sval(e2), md::sval(e3)));
                 judge(cx, R ? "&&,const&,&&" : "const&,const&,const&", enc(r), want,
                       md::ok(e1) && md::ok(e2) && md::ok(e3));
+                if constexpr (R)
+                {
+                  ED t1 = dec<ED>(e1);
+                  eit<E, B> t2 = dec<eit<E, B>>(e2);
+                  eit<E, C> t3 = dec<eit<E, C>>(e3);
+                  begin_eval();
+                  EA r2 = fcppt::either::apply(f, std::move(t1), t2, t3);
+                  int const want2 = !md::ok(e1)   ? md::fail(md::fval(e1))
+                                    : !md::ok(e2) ? md::fail(md::fval(e2))
+                                    : !md::ok(e3) ? md::fail(md::fval(e3))
+                                                  : md::succ(mf(md::sval(e1), md::sval(e2), md::sval(e3)));
+                  judge(cx, "&&,&,&", enc(r2), want2, md::ok(e1) && md::ok(e2) && md::ok(e3));
+                  if (enc(t2) != e2 || enc(t3) != e3)
+                    vf::violation(cx.fn + "/&&,&,&/lvalue-operand-modified", "mismatch",
+                                  "a non-const lvalue operand no longer holds its value" + ops_text());
+                }
               });
       });
   }();
